@@ -19,7 +19,7 @@ PROPS = {
         "struct": True,
         "design_ref": "DESIGN.md §3.8",
         "level_text": "Theorem C08_linearizable (Coq, no axioms): in a concurrent model of one slot of the sharded backends, built from the atomic sections of the source (Read = RLock lookup then atomic load of E; Write, Delete and every batch operation's action on a slot = one Lock section; evictLeast = RLock collection then delete-by-hash; Walk's visit = RLock lookup then atomic loads), EVERY schedule of ANY number of threads yields a history accepted by the canonical atomic object of the sequential slot register sspec, i.e. is linearizable with every batch operation acting on the slot at one instant inside its call (forward simulation with hindsight linearization of readers whose entry another thread removes). Corollaries C08_quiet_read (a completed Write is visible to, and a completed Delete/DeleteAll/cleanup hides the value from, every later Read), C08_only_stored (a slot only ever holds a key and value some Write stored, so Walk reports nothing else), C08_slot_view_* (sspec is the slot view of the sequential Backend.v the C07/C09 runs exercise). Tie to the code: C08_sections (the critical-section structure of the backend functions REGENERATED from /repo by goextract equals the one the model assumes) and stress histories (2..16 goroutines, frozen clock, colliding keys, LRU/LFU on/off) whose per-slot linearization, found by porcupine, is re-checked inside Coq against sspec and real-time order.",
-        "level_note": "Partial for SyncMap: its point operations, DeleteAll (two-phase, op SClearS), Len, Walk and evictLeast have the modelled step structure relative to sync.Map being a linearizable map; its ExpireAll and deleteExpired (which act on the pointer Range handed out, possibly already replaced) are covered by the stress search only. Walk's completeness ('every entry unchanged for the whole walk exactly once') rests on Go's map-iteration / sync.Map.Range contract (assumed; the search checks it). Trusted: Coq kernel; hand-written BackendConc.v; goextract; porcupine for the search (a linearization it finds is re-checked in Coq; a rejection is reported as found).",
+        "level_note": "Partial for SyncMap: its point operations, DeleteAll (two-phase, op SClearS), Len, Walk and evictLeast have the modelled step structure relative to sync.Map being a linearizable map; its ExpireAll and deleteExpired (which act on the pointer Range handed out, possibly already replaced) are covered by the stress search only (which found known finding K1 there: DESIGN 8.3a). Walk's completeness ('every entry unchanged for the whole walk exactly once') rests on Go's map-iteration / sync.Map.Range contract (assumed; the search checks it). Trusted: Coq kernel; hand-written BackendConc.v; goextract; porcupine for the search (a linearization it finds is re-checked in Coq; a rejection is reported as found).",
     },
     "C16": {
         "tests": ["TestC16"],
